@@ -107,6 +107,8 @@ def snapshot_of_case(spec, ds):
     if spec.get("mode") == "file":
         import xarray
         with xarray.open_dataset(ds.encoding["source"]) as twin:
+            if spec.get("pick"):
+                twin = twin.isel({d: k for d, k in spec["pick"].items() if d in twin.dims})
             return snapshot(twin)
     return snapshot(ds)
 
